@@ -9,6 +9,7 @@
 -/
 import ExoModel.Rewrite
 import ExoModel.RewriteReindex
+import ExoModel.RewriteStage
 
 namespace Exo.Rw
 open Exo
@@ -582,6 +583,292 @@ def unrollBuffer (d : Nat) (names : List Sym) : Local
         some (names.map (fun y => .alloc y (sh.eraseIdx d)) ++ unrollL x d nm r)
       else none
     | none => none
+  | _ => none
+
+end Exo.Rw
+
+
+/-! ## stage_mem, reuse_buffer  (appended; shapes of `DoStageMem`, `DoReuseBuffer`)
+
+### stage_mem
+
+`DoStageMem(block, x, w_exprs, new_name, use_accum_zero)` (index arithmetic, nests and the fully
+redirected block: ExoModel.RewriteStage):
+
+1. `xs : T[hi - lo …]` (a scalar when every coordinate of the window is a point) is inserted in
+   front of the block.
+2. For every statement `c` of the block, in order: first `_replace_reads(c, x, mk_read)` — every
+   `Read` and every `WindowExpr` of `x` below `c` —, then `_replace_writes(c, x, mk_write)` — every
+   `Assign` to `x` below `c`, then every `Reduce` to `x` below `c`.  `mk_read` / `mk_write` ask
+   `Check_Access_In_Window` (an SMT query) about THIS access: always inside the window → redirected
+   (`rewrite_idx` / `rewrite_win`), never inside → the access is LEFT ALONE (callback returns
+   `None`), otherwise `SchedulingError`.  `Check_Access_In_Window` asserts
+   `len(access.idx) == len(w_exprs)` (a whole-tensor `x` passed to a call: `AssertionError`);
+   a window expression of `x` with an interval in a dimension where the staged window has a point
+   raises `SchedulingError` before the query (left alone or not).
+   The decision is not part of the shape: the redirected block `B'` is a PARAMETER (read off the
+   output), constrained by `stageRelL`: every access to `x` is either redirected exactly as
+   `stageE` / `stageS` would, or unchanged.  `stride(x, d)` is never touched.
+3. Flags, in the order of step 2 (`stageFlagsL`):
+     `actualR`  some read / window expression was redirected, or some reduce was redirected;
+     `actualW`  some assign / reduce was redirected;
+     `WShadow`  an assign was redirected at a moment when `actualR` was still false and ALL window
+                coordinates are points (only an `Assign` can set it: a `Reduce` sets `actualR` first).
+   copy-in nest  iff `actualR and not WShadow`;  copy-out nest iff `actualW`;
+   neither `actualR` nor `actualW`: `SchedulingError`.
+4. `insert_safety_guards`: the innermost copy statement is wrapped in `if c_1 and … and c_m:` where
+   the `c_j` are those of `0 <= r_0, r_0 < e_0, 0 <= r_1, r_1 < e_1, …` (`r` = indices of the access
+   to `x`, `e` = extents of `x`) that `Check_ExprEqvInContext` could not prove, in this order,
+   nested to the left.  Not called for the copy-in nest when `use_accum_zero` (its statement is
+   `xs[i…] = 0.0`).  Which conditions are proved is not part of the shape: the guards are
+   parameters; `guardSub` checks the form.
+5. Result: `alloc; copy-in?; B'; copy-out?; rest of the enclosing block`.  `Check_Bounds` of the new
+   buffer over the new block and (accum) `Check_BufferReduceOnly` are analyses, not shape.
+-/
+
+namespace Exo.Rw
+open Exo
+
+/-- `mk_read` raises: the window expression has an interval where the staged window has a point -/
+def winClash : List WAcc → List WAcc → Bool
+  | .point _ :: _, .interval _ _ :: _ => true
+  | _ :: w, _ :: acc => winClash w acc
+  | _, _ => false
+
+mutual
+/-- `e'` is `e` with every access to `x` either redirected as `stageE` does, or left alone
+    (symbols are compared literally: the real code replaces attributes, it renames nothing) -/
+def stageRelE (x xs : Sym) (w : List WAcc) : Expr → Expr → Bool
+  | .read y idx, .read y' idx' =>
+    if y == x then
+      idx.length == w.length &&
+      ((y' == xs && exprsEq [] (stageIdx w (stageEs x xs w idx)) idx') ||
+       (y' == x && stageRelEs x xs w idx idx'))
+    else y' == y && stageRelEs x xs w idx idx'
+  | .lit c, .lit c' => c == c'
+  | .usub a, .usub a' => stageRelE x xs w a a'
+  | .binop o a b, .binop o' a' b' => o == o' && stageRelE x xs w a a' && stageRelE x xs w b b'
+  | .extern f args, .extern g args' => f == g && stageRelEs x xs w args args'
+  | .win y acc, .win y' acc' =>
+    if y == x then
+      acc.length == w.length && !winClash w acc &&
+      ((y' == xs && waccsEq [] (stageWin w (stageWs x xs w acc)) acc') ||
+       (y' == x && stageRelWs x xs w acc acc'))
+    else y' == y && stageRelWs x xs w acc acc'
+  | .stride y d, .stride y' d' => y == y' && d == d'
+  | .readcfg c f, .readcfg c' f' => c == c' && f == f'
+  | _, _ => false
+def stageRelEs (x xs : Sym) (w : List WAcc) : List Expr → List Expr → Bool
+  | [], [] => true
+  | a :: r, a' :: r' => stageRelE x xs w a a' && stageRelEs x xs w r r'
+  | _, _ => false
+def stageRelW (x xs : Sym) (w : List WAcc) : WAcc → WAcc → Bool
+  | .interval a b, .interval a' b' => stageRelE x xs w a a' && stageRelE x xs w b b'
+  | .point a, .point a' => stageRelE x xs w a a'
+  | _, _ => false
+def stageRelWs (x xs : Sym) (w : List WAcc) : List WAcc → List WAcc → Bool
+  | [], [] => true
+  | a :: r, a' :: r' => stageRelW x xs w a a' && stageRelWs x xs w r r'
+  | _, _ => false
+end
+
+mutual
+def stageRelS (x xs : Sym) (w : List WAcc) : Stmt → Stmt → Bool
+  | .assign y idx rhs, .assign y' idx' rhs' =>
+    stageRelE x xs w rhs rhs' &&
+    (if y == x then
+      idx.length == w.length &&
+      ((y' == xs && exprsEq [] (stageIdx w (stageEs x xs w idx)) idx') ||
+       (y' == x && stageRelEs x xs w idx idx'))
+     else y' == y && stageRelEs x xs w idx idx')
+  | .reduce y idx rhs, .reduce y' idx' rhs' =>
+    stageRelE x xs w rhs rhs' &&
+    (if y == x then
+      idx.length == w.length &&
+      ((y' == xs && exprsEq [] (stageIdx w (stageEs x xs w idx)) idx') ||
+       (y' == x && stageRelEs x xs w idx idx'))
+     else y' == y && stageRelEs x xs w idx idx')
+  | .writecfg c f rhs d, .writecfg c' f' rhs' d' =>
+    c == c' && f == f' && d == d' && stageRelE x xs w rhs rhs'
+  | .pass, .pass => true
+  | .ite c t el, .ite c' t' el' =>
+    stageRelE x xs w c c' && stageRelL x xs w t t' && stageRelL x xs w el el'
+  | .loop i lo hi b par, .loop i' lo' hi' b' par' =>
+    i == i' && par == par' && stageRelE x xs w lo lo' && stageRelE x xs w hi hi' &&
+    stageRelL x xs w b b'
+  | .alloc y sh, .alloc y' sh' => y == y' && exprsEq [] sh sh'
+  | .free y, .free y' => y == y'
+  | .call f args, .call g args' => procEq f g && stageRelEs x xs w args args'
+  | .window y rhs, .window y' rhs' => y == y' && stageRelE x xs w rhs rhs'
+  | _, _ => false
+def stageRelL (x xs : Sym) (w : List WAcc) : List Stmt → List Stmt → Bool
+  | [], [] => true
+  | s :: r, s' :: r' => stageRelS x xs w s s' && stageRelL x xs w r r'
+  | _, _ => false
+end
+
+/-- the case the soundness theorem covers: EVERY access to `x` in the block was redirected -/
+def stageAllRedirected (x xs : Sym) (w : List WAcc) (B B' : List Stmt) : Bool :=
+  alphaEqBlocks (stageL x xs w B) B'
+
+def anyRd (xs : Sym) (e : Expr) : Bool := anyAccE xs (fun _ => true) (fun _ => true) (fun _ => false) e
+def anyRds (xs : Sym) (es : List Expr) : Bool :=
+  anyAccEs xs (fun _ => true) (fun _ => true) (fun _ => false) es
+
+mutual
+/-- some `Read` / window expression of `xs` below the statement (targets do not count) -/
+def stRdS (xs : Sym) : Stmt → Bool
+  | .assign _ idx rhs => anyRds xs idx || anyRd xs rhs
+  | .reduce _ idx rhs => anyRds xs idx || anyRd xs rhs
+  | .writecfg _ _ rhs _ => anyRd xs rhs
+  | .ite c t el => anyRd xs c || stRdL xs t || stRdL xs el
+  | .loop _ lo hi b _ => anyRd xs lo || anyRd xs hi || stRdL xs b
+  | .call _ args => anyRds xs args
+  | .window _ rhs => anyRd xs rhs
+  | _ => false
+def stRdL (xs : Sym) : List Stmt → Bool
+  | [] => false
+  | s :: r => stRdS xs s || stRdL xs r
+end
+
+mutual
+/-- some `Assign` (`asg`) / `Reduce` (`!asg`) whose target is `xs` below the statement -/
+def stWrS (asg : Bool) (xs : Sym) : Stmt → Bool
+  | .assign y _ _ => asg && y == xs
+  | .reduce y _ _ => !asg && y == xs
+  | .ite _ t el => stWrL asg xs t || stWrL asg xs el
+  | .loop _ _ _ b _ => stWrL asg xs b
+  | _ => false
+def stWrL (asg : Bool) (xs : Sym) : List Stmt → Bool
+  | [] => false
+  | s :: r => stWrS asg xs s || stWrL asg xs r
+end
+
+/-- `w_is_pt` -/
+def allPoints : List WAcc → Bool
+  | [] => true
+  | .point _ :: w => allPoints w
+  | .interval _ _ :: _ => false
+
+/-- `(actualR, actualW, WShadow)` after the statements of the (redirected) block, processed as the
+    real loop does: per statement reads, then assigns, then reduces.  `xs` is fresh, so an
+    occurrence of `xs` in `B'` IS a redirected access. -/
+def stageFlagsL (xs : Sym) (pt : Bool) : Bool × Bool × Bool → List Stmt → Bool × Bool × Bool
+  | st, [] => st
+  | (r, wr, sh), c :: rest =>
+    let r := r || stRdS xs c
+    let a := stWrS true xs c
+    let d := stWrS false xs c
+    let sh := sh || (a && !r && pt)
+    stageFlagsL xs pt (r || d, wr || a || d, sh) rest
+
+/-- conjuncts of `((c_1 and c_2) and …) and c_m` in order -/
+def conjuncts : Expr → List Expr
+  | .binop .and a b => conjuncts a ++ [b]
+  | e => [e]
+
+/-- are the conditions `cs` (in order) among `0 <= r_0, r_0 < e_0, 0 <= r_1, r_1 < e_1, …`?
+    `exts[k] = none`: the extent is not known to the caller (a procedure argument) — anything is
+    accepted in its place -/
+def guardSub : List Expr → List (Option Expr) → List Expr → Bool
+  | _, _, [] => true
+  | [], _, _ :: _ => false
+  | r :: rs, es, c :: cs =>
+    let e : Option Expr := es.head?.join
+    let isLo : Expr → Bool := fun c => match c with
+      | .binop .le (.lit (.int 0)) r' => exprEq [] r r'
+      | _ => false
+    let isHi : Expr → Bool := fun c => match c with
+      | .binop .lt r' e' => exprEq [] r r' && (match e with | some e0 => exprEq [] e0 e' | none => true)
+      | _ => false
+    if isLo c then
+      match cs with
+      | c2 :: cs2 => if isHi c2 then guardSub rs es.tail cs2 else guardSub rs es.tail cs
+      | [] => true
+    else if isHi c then guardSub rs es.tail cs
+    else guardSub rs es.tail (c :: cs)
+
+/-- form of a safety guard around an access `x[ridx]` (`none`: every bound was proved) -/
+def guardForm (ridx : List Expr) (exts : List (Option Expr)) : Option Expr → Bool
+  | none => true
+  | some g => guardSub ridx exts (conjuncts g)
+
+/-- `stage_mem(block, "x[w]", xs, accum)` (`DoStageMem`): the suffix starts at the first statement of
+    the block, `n` = number of statements of the block.  Free parameters (all read off the output by
+    `Rw.checkStorage`): the fresh buffer `xs`, the loop iterators (the real code makes fresh ones for
+    each nest; one list serves both up to alpha), the guards, the redirected block `B'`.
+    `load` / `store` are determined by `B'` (`stageFlagsL`) and only restated; `none` = the real code
+    raises (no access redirected; an access that is neither redirected nor unchanged; window /
+    index tuple of the wrong length; `winClash`) or the parameters are inconsistent.
+    When `stageAllRedirected x xs w (ss.take n) B'` the result is `stageMemAll … ss` up to alpha. -/
+def stageMem (x xs : Sym) (w : List WAcc) (n : Nat) (iters : List Sym) (accum load store : Bool)
+    (gl gs : Option Expr) (B' : List Stmt) : Local := fun ss =>
+  let fl := stageFlagsL xs (allPoints w) (false, false, false) B'
+  if decide (0 < n) && decide (n ≤ ss.length) && iters.length == (stageShape w).length &&
+     stageRelL x xs w (ss.take n) B' &&
+     (fl.1 || fl.2.1) && load == (fl.1 && !fl.2.2) && store == fl.2.1 &&
+     (!accum || gl.isNone) then
+    some (.alloc xs (stageShape w) ::
+      ((if load then stageLoad x xs w iters accum gl else []) ++ B' ++
+       (if store then stageStore x xs w iters accum gs else []) ++ ss.drop n))
+  else none
+
+/-! ### reuse_buffer
+
+`DoReuseBuffer(buf_cursor, rep_cursor)`: `buf_cursor` = the allocation of `x` (KEPT),
+`rep_cursor` = the allocation `y : T[sh]` that is REPLACED.  The real code asserts that the two
+allocation types are equal (`AssertionError` otherwise — the comparison includes source positions
+of the extents, so two tensor allocations written at different places never pass; scalars do),
+deletes `rep_cursor` (`Block._delete`: `pass` refill when it was the only statement of its block)
+and then, for every statement `c` that FOLLOWED `y`'s allocation in its block,
+`_replace_reads(c, y, name := x)` (every `Read` and every `WindowExpr` of `y`; `stride(y, d)` is NOT
+matched and keeps the dead symbol) and `_replace_writes(c, y, name := x)` (`Assign` / `Reduce`
+targets).  `Check_IsDeadAfter(x)` at the first write found is an analysis, not shape.  Nothing
+relates the positions of the two allocations: the `Local` is applied at `y`'s allocation, wherever
+`x` is allocated. -/
+
+mutual
+def reuseE (y x : Sym) : Expr → Expr
+  | .read z idx => .read (if z == y then x else z) (reuseEs y x idx)
+  | .lit c => .lit c
+  | .usub a => .usub (reuseE y x a)
+  | .binop o a b => .binop o (reuseE y x a) (reuseE y x b)
+  | .extern f args => .extern f (reuseEs y x args)
+  | .win z acc => .win (if z == y then x else z) (reuseWs y x acc)
+  | .stride z d => .stride z d
+  | .readcfg c f => .readcfg c f
+def reuseEs (y x : Sym) : List Expr → List Expr
+  | [] => []
+  | a :: r => reuseE y x a :: reuseEs y x r
+def reuseW (y x : Sym) : WAcc → WAcc
+  | .interval a b => .interval (reuseE y x a) (reuseE y x b)
+  | .point a => .point (reuseE y x a)
+def reuseWs (y x : Sym) : List WAcc → List WAcc
+  | [] => []
+  | a :: r => reuseW y x a :: reuseWs y x r
+end
+
+mutual
+def reuseS (y x : Sym) : Stmt → Stmt
+  | .assign z idx rhs => .assign (if z == y then x else z) (reuseEs y x idx) (reuseE y x rhs)
+  | .reduce z idx rhs => .reduce (if z == y then x else z) (reuseEs y x idx) (reuseE y x rhs)
+  | .writecfg c f rhs d => .writecfg c f (reuseE y x rhs) d
+  | .pass => .pass
+  | .ite c t el => .ite (reuseE y x c) (reuseL y x t) (reuseL y x el)
+  | .loop i lo hi b par => .loop i (reuseE y x lo) (reuseE y x hi) (reuseL y x b) par
+  | .alloc z sh => .alloc z sh
+  | .free z => .free z
+  | .call f args => .call f (reuseEs y x args)
+  | .window z rhs => .window z (reuseE y x rhs)
+def reuseL (y x : Sym) : List Stmt → List Stmt
+  | [] => []
+  | s :: r => reuseS y x s :: reuseL y x r
+end
+
+/-- `reuse_buffer(x's allocation, y's allocation)` applied at `y`'s allocation; `fill` as in
+    `deleteBuffer` (the allocation is the first statement of its block) -/
+def reuseBuffer (x : Sym) (fill : Bool) : Local
+  | .alloc y _ :: r => some (if fill && r.isEmpty then [.pass] else reuseL y x r)
   | _ => none
 
 end Exo.Rw
